@@ -23,9 +23,9 @@ import (
 )
 
 const (
-	stallLimit      = queryTimeout / 2 // observed scheduling lateness above this makes timing/missing verdicts inconclusive
+	stallLimit      = queryTimeout // observed scheduling lateness above this makes timing/missing verdicts inconclusive
 	quiesceWant     = 5 * time.Second
-	quiescePersist  = 40 * time.Second // still not quiescent after this = stuck, not slow
+	quiescePersist  = 20 * time.Second // still not quiescent after this = stuck, not slow
 	goroutineWant   = 10 * time.Second
 	goroutineSlack  = 4
 	goroutineLeakAt = 8 // persistent excess of at least this many sdns goroutines = leak
@@ -49,15 +49,30 @@ type scriptRun struct {
 	pl  *plan
 	t0  time.Time
 	iso []*isoProbe
+	ctl *control
 
 	inconclusive bool
+	nViol        int
+}
+
+// lateness is what the machine demonstrably added to work that needed no
+// waiting: the larger of this process' timer lateness and the control
+// client's worst round trip for an always-cached name (control.go).
+func (s *scriptRun) lateness() time.Duration {
+	l := s.jm.max()
+	if s.ctl != nil {
+		if c := s.ctl.maxRTT(); c > l {
+			l = c
+		}
+	}
+	return l
 }
 
 func (s *scriptRun) margin() time.Duration {
-	// the property's deadline + a generous fixed margin + what this process
-	// itself measured as scheduling lateness (twice: the lateness can hit the
-	// server's timer and the client's receive path independently)
-	return queryTimeout + baseMargin + 2*s.jm.max()
+	// the property's deadline + a generous fixed margin + the measured
+	// lateness (twice: it can hit the server's timer / request path and the
+	// client's receive path independently)
+	return queryTimeout + baseMargin + 2*s.lateness()
 }
 
 func runScript(r *vlib.Run, sp scriptSpec, jm *jitterMon) {
@@ -71,6 +86,26 @@ func runScript(r *vlib.Run, sp scriptSpec, jm *jitterMon) {
 	s.e = e
 	defer e.close()
 
+	// ---- clients; the control name is resolved and cached while the universe
+	// is still honest
+	cl, err := newClients(e.st.Addrs().UDP, 16)
+	if err != nil {
+		r.Inconclusive(fmt.Sprintf("script %s: client sockets: %v", sp.Name, err))
+		return
+	}
+	s.cl = cl
+	defer cl.closeAll()
+	ctl, err := newControl(s)
+	if err != nil {
+		r.Inconclusive(fmt.Sprintf("script %s: control socket: %v", sp.Name, err))
+		return
+	}
+	if !ctl.prime() {
+		r.Inconclusive(fmt.Sprintf("script %s: the control name %s did not resolve in the fault-free universe", sp.Name, ctl.name))
+		return
+	}
+	s.ctl = ctl
+
 	// ---- fault scripts
 	isIso := func(name string) bool { return strings.HasSuffix(name, ".iso.test.") || name == "iso.test." }
 	for _, zi := range e.t.zones {
@@ -78,13 +113,13 @@ func runScript(r *vlib.Run, sp scriptSpec, jm *jitterMon) {
 			if sp.FirstOK && i == 0 {
 				continue
 			}
-			installFaults(srv, &sp, sp.Zone, zi.apex, nil)
+			installFaults(srv, &sp, sp.Zone, zi.apex, isControlName)
 		}
 	}
 	for _, ip := range e.t.iso {
 		ip.install()
 	}
-	installFaults(e.t.tld, &sp, sp.TLD, "test.", isIso)
+	installFaults(e.t.tld, &sp, sp.TLD, "test.", func(n string) bool { return isIso(n) || isControlName(n) })
 
 	// ---- settle: the priming query has been answered, nothing is in flight
 	settleDeadline := time.Now().Add(5 * time.Second)
@@ -101,19 +136,14 @@ func runScript(r *vlib.Run, sp scriptSpec, jm *jitterMon) {
 	k0 := readUDPSNMP()
 	jm.reset()
 
-	// ---- clients and plan
-	cl, err := newClients(e.st.Addrs().UDP, 16)
-	if err != nil {
-		r.Inconclusive(fmt.Sprintf("script %s: client sockets: %v", sp.Name, err))
-		return
-	}
-	s.cl = cl
+	// ---- plan
 	s.pl = buildPlan(r.RandN("plan", sp.Index), &sp, len(e.t.zones))
 	for i, ip := range e.t.iso {
 		s.iso = append(s.iso, newIsoProbe(s, i, ip))
 	}
 
 	s.t0 = time.Now()
+	ctl.start()
 	var isoWG sync.WaitGroup
 	for i, p := range s.iso {
 		isoWG.Add(1)
@@ -130,36 +160,46 @@ func runScript(r *vlib.Run, sp scriptSpec, jm *jitterMon) {
 			lastSend = t
 		}
 	}
+	// the control keeps running while replies are still expected (that is when
+	// the deadline timers fire) and stops once the last planned query is
+	// answered or overdue; its own last queries are then waited for as well
 
 	// ---- keep counting until every query is answered or its deadline (plus
 	// margin) has passed, and at least queryTimeout+0.5s after the last send
 	// (a duplicate produced at a deadline shows up by then)
 	all := s.allQueries()
-	for {
-		pending := 0
-		now := time.Now()
-		m := s.margin()
-		for _, q := range all {
-			if q.Closer || q.Junk != "" {
-				continue
+	waitFor := func(qs []*qrec, settle time.Duration, since func() time.Time) {
+		for {
+			pending := 0
+			now := time.Now()
+			m := s.margin()
+			for _, q := range qs {
+				if q.Closer || q.Junk != "" {
+					continue
+				}
+				sent, sendErr, reps, closed := q.snapshot()
+				if sendErr != "" || closed || len(reps) > 0 || sent.IsZero() {
+					continue
+				}
+				lim := m
+				if q.Pipe > 1 {
+					lim += time.Duration(q.Pipe-1) * queryTimeout
+				}
+				if now.Sub(sent) < lim {
+					pending++
+				}
 			}
-			sent, sendErr, reps, closed := q.snapshot()
-			if sendErr != "" || closed || len(reps) > 0 || sent.IsZero() {
-				continue
+			if pending == 0 && now.Sub(since()) > settle {
+				return
 			}
-			lim := m
-			if q.Pipe > 1 {
-				lim += time.Duration(q.Pipe-1) * queryTimeout
-			}
-			if now.Sub(sent) < lim {
-				pending++
-			}
+			time.Sleep(20 * time.Millisecond)
 		}
-		if pending == 0 && now.Sub(lastSend) > queryTimeout+500*time.Millisecond {
-			break
-		}
-		time.Sleep(20 * time.Millisecond)
 	}
+	waitFor(all, queryTimeout+500*time.Millisecond, func() time.Time { return lastSend })
+	ctl.halt()
+	ctlQs := ctl.queries()
+	waitFor(ctlQs, 200*time.Millisecond, ctl.lastSend)
+	all = append(all, ctlQs...)
 	loadWall := time.Since(s.t0)
 
 	// ---- quiescence: every listener slab home, every limiter slot free
@@ -190,6 +230,7 @@ func runScript(r *vlib.Run, sp scriptSpec, jm *jitterMon) {
 
 	// ---- the end of the run for the sockets: nothing more is counted
 	udpStray, tcpStray := cl.strays()
+	conns := cl.tcpStats()
 	cl.closeAll()
 
 	// ---- goroutines back to the pre-load baseline
@@ -209,13 +250,16 @@ func runScript(r *vlib.Run, sp scriptSpec, jm *jitterMon) {
 	}
 	afterAll := runtime.NumGoroutine()
 	jit := jm.max()
+	ctlRTT := ctl.maxRTT()
+	late := s.lateness()
 
 	// ================================================================ judge
 	r.Count("scripts_run", 1)
 	r.Count("script/"+baseName(sp.Name), 1)
 	r.Max("jitter_max_ms", jit.Milliseconds())
+	r.Max("control_rtt_max_ms", ctlRTT.Milliseconds())
 	r.Max("load_phase_max_ms", loadWall.Milliseconds())
-	stalled := jit > stallLimit
+	stalled := late > stallLimit
 	if stalled {
 		r.Count("scripts_stalled", 1)
 	}
@@ -227,18 +271,29 @@ func runScript(r *vlib.Run, sp scriptSpec, jm *jitterMon) {
 	}
 
 	var (
-		udpUnanswered, tcpRefused int64
-		judged                    int
-		margin                    = s.margin()
+		udpUnanswered   int64
+		udpShedPossible int64 // closers / junk datagrams that may have been shed unobserved
+		judged          int
+		margin          = s.margin()
 	)
 	servfailLate := 0
+	waves := map[int]*waveStat{}
+	ws := func(q *qrec) *waveStat {
+		w := waves[q.Wave]
+		if w == nil {
+			w = &waveStat{Wave: q.Wave, Pattern: q.Pattern, Rcodes: map[string]int{}}
+			waves[q.Wave] = w
+		}
+		return w
+	}
 	for _, q := range all {
 		sent, sendErr, reps, closed := q.snapshot()
 		tr := q.Tr
 		if q.Junk != "" {
 			r.Count("junk_sent", 1)
+			udpShedPossible++
 			if len(reps) > 0 {
-				r.Count("junk_answered", len(reps))
+				r.Count("junk_answered", len(reps)) // informational: not this property's clause
 			}
 			continue
 		}
@@ -248,10 +303,20 @@ func runScript(r *vlib.Run, sp scriptSpec, jm *jitterMon) {
 		}
 		r.Count("queries_"+tr, 1)
 		r.Count("pattern/"+q.Pattern, 1)
+		w := ws(q)
+		w.Queries++
+		if tr == "udp" {
+			w.UDP++
+		} else {
+			w.TCP++
+		}
 		if q.Closer {
 			r.Count("closers_"+tr, 1)
+			w.Closers++
 			if len(reps) > 0 {
 				r.Count("closers_answered_before_close", 1)
+			} else if tr == "udp" {
+				udpShedPossible++
 			}
 			if len(reps) > 1 {
 				s.violation("duplicate-reply/"+tr, fmt.Sprintf("%d replies to one %s query (client that later closed)", len(reps), tr), q, reps, nil)
@@ -260,12 +325,10 @@ func runScript(r *vlib.Run, sp scriptSpec, jm *jitterMon) {
 		}
 		if sendErr != "" {
 			// the write itself failed: the query never reached the server
-			if tr == "tcp" {
-				tcpRefused++
-				r.Count("tcp_send_failed", 1)
-			} else {
-				r.Count("udp_send_failed", 1)
-			}
+			// (TCP: the server had already reset the connection — that
+			// connection is accounted below, once, as a cut connection)
+			r.Count(tr+"_send_failed", 1)
+			w.NeverAdmitted++
 			continue
 		}
 		judged++
@@ -281,6 +344,7 @@ func runScript(r *vlib.Run, sp scriptSpec, jm *jitterMon) {
 		}
 		switch {
 		case len(reps) >= 2:
+			w.Duplicates++
 			s.violation("duplicate-reply/"+tr, fmt.Sprintf("%d replies to one admitted %s query for %s %s (second %.0f ms after the first)",
 				len(reps), tr, q.Name, dns.TypeToString[q.Qtype], float64(reps[1].at.Sub(reps[0].at).Microseconds())/1000), q, reps, nil)
 		case len(reps) == 1:
@@ -288,10 +352,20 @@ func runScript(r *vlib.Run, sp scriptSpec, jm *jitterMon) {
 			lat := rp.at.Sub(sent)
 			r.Max("latency_max_ms_"+tr, lat.Milliseconds())
 			r.Count("rcode/"+rcodeName(rp.rcode), 1)
+			w.Rcodes[rcodeName(rp.rcode)]++
+			if m := ms(lat); m > w.LatencyMaxMs {
+				w.LatencyMaxMs = m
+			}
 			if rp.rcode == dns.RcodeServerFailure {
 				r.Count("servfails", 1)
-				if lat >= queryTimeout-100*time.Millisecond {
+				if lat >= queryTimeout-100*time.Millisecond || rp.timeoutEDE {
+					// produced by the request's own deadline: at (or after)
+					// querytimeout, or labelled so by the server
 					servfailLate++
+					w.DeadlineServfails++
+				}
+				if rp.timeoutEDE {
+					r.Count("servfails_with_timeout_ede", 1)
 				}
 			}
 			lim := margin
@@ -305,24 +379,27 @@ func runScript(r *vlib.Run, sp scriptSpec, jm *jitterMon) {
 					r.Count("late_replies_on_stalled_machine", 1)
 					s.inconclusive = true
 				} else {
-					s.violation("late-reply/"+tr, fmt.Sprintf("reply to %s %s over %s after %.0f ms > querytimeout %.0f ms + margin %.0f ms (measured scheduling lateness %.0f ms)",
-						q.Name, dns.TypeToString[q.Qtype], tr, ms(lat), ms(queryTimeout), ms(lim-queryTimeout), ms(jit)), q, reps, nil)
+					s.violation("late-reply/"+tr, fmt.Sprintf("reply to %s %s over %s after %.0f ms > querytimeout %.0f ms + margin %.0f ms (measured lateness: timers %.0f ms, control round trip %.0f ms)",
+						q.Name, dns.TypeToString[q.Qtype], tr, ms(lat), ms(queryTimeout), ms(lim-queryTimeout), ms(jit), ms(ctlRTT)), q, reps, nil)
 				}
 			}
 		default:
-			if tr == "udp" {
+			switch {
+			case tr == "udp":
 				udpUnanswered++
-			} else if closed {
-				tcpRefused++
-				r.Count("tcp_closed_by_server_unanswered", 1)
-			} else {
-				if stalled {
-					r.Count("missing_replies_on_stalled_machine", 1)
-					s.inconclusive = true
-				} else {
-					s.violation("no-reply/tcp", fmt.Sprintf("admitted TCP query for %s %s got no reply within %.0f ms and the connection stayed open",
-						q.Name, dns.TypeToString[q.Qtype], ms(margin)), q, reps, nil)
-				}
+				w.UDPUnanswered++
+			case closed:
+				// the server closed the connection with this query
+				// unanswered: judged per CONNECTION below
+				r.Count("tcp_queries_on_cut_connections", 1)
+				w.NeverAdmitted++
+			case stalled:
+				r.Count("missing_replies_on_stalled_machine", 1)
+				s.inconclusive = true
+			default:
+				w.Lost++
+				s.violation("no-reply/tcp", fmt.Sprintf("admitted TCP query for %s %s got no reply within %.0f ms and the connection stayed open",
+					q.Name, dns.TypeToString[q.Qtype], ms(margin)), q, reps, nil)
 			}
 		}
 	}
@@ -330,6 +407,18 @@ func runScript(r *vlib.Run, sp scriptSpec, jm *jitterMon) {
 	r.Count("deadline_servfails", servfailLate)
 
 	// ---- zero replies must be accounted for exactly
+	//
+	// UDP. Every datagram the engine reads and does not serve increments one of
+	// its drop counters; a datagram lost before the engine read it (or a reply
+	// lost after it was sent) increments a kernel counter. An unanswered
+	// judged query beyond those is an admitted query whose reply was lost.
+	// (Closers and junk may be shed too without the harness being able to see
+	// it, which can only make the budget LARGER than the judged loss — the
+	// shed scripts therefore carry neither.)
+	if p := delta("udp_drop_panic") + delta("tcp_drop_panic"); p > 0 {
+		s.violation("ingress-panic-recovered", fmt.Sprintf("the engines recovered %d panic(s) outside the chain: each is a request that ended without a reply", p),
+			nil, nil, map[string]any{"server_counters_delta": deltas(ctr0, ctr1)})
+	}
 	udpServerDrops := delta("udp_drop_full") + delta("udp_drop_error") + delta("udp_drop_trunc") + delta("udp_drop_ctrunc") + delta("udp_drop_tx_error")
 	kernelLoss := int64(0)
 	if k0.ok && k1.ok {
@@ -341,23 +430,80 @@ func runScript(r *vlib.Run, sp scriptSpec, jm *jitterMon) {
 	if udpUnanswered > 0 {
 		if udpUnanswered <= udpServerDrops+kernelLoss {
 			r.Count("drops_accounted", int(udpUnanswered))
+			r.Count("udp_shed_accounted", int(udpUnanswered))
+			if udpServerDrops > 0 && kernelLoss == 0 && udpUnanswered+udpShedPossible >= udpServerDrops {
+				// both directions: every counted drop is a query we saw go
+				// unanswered (or a closer/junk datagram nobody waited for)
+				r.Count("udp_shed_scripts_exact", 1)
+			}
 		} else if stalled {
 			s.inconclusive = true
 			r.Count("missing_replies_on_stalled_machine", int(udpUnanswered))
 		} else {
 			s.violation("no-reply/udp-unaccounted", fmt.Sprintf("%d admitted UDP queries got no reply but the server counted only %d shed/dropped datagrams and the kernel %d lost ones",
-				udpUnanswered, udpServerDrops, kernelLoss), nil, nil, map[string]any{"server_counters_delta": deltas(ctr0, ctr1), "kernel_before": k0, "kernel_after": k1})
+				udpUnanswered, udpServerDrops, kernelLoss), nil, nil, map[string]any{"server_counters_delta": deltas(ctr0, ctr1), "kernel_before": k0, "kernel_after": k1, "unanswered": unansweredList(all, "udp", 12)})
 		}
 	}
-	tcpShed := delta("tcp_drop_conncap") + delta("tcp_drop_jobwait")
-	if tcpRefused > 0 {
-		if tcpRefused <= tcpShed {
-			r.Count("drops_accounted", int(tcpRefused))
-		} else if stalled {
-			s.inconclusive = true
+
+	// TCP. The server sheds TCP work per CONNECTION, never per query: a
+	// connection accepted beyond the cap is closed unread (tcp_drop_conncap,
+	// one increment, however many frames the client had pipelined into it), and
+	// a frame that cannot get a job slab inside its own budget ends its
+	// connection (tcp_drop_jobwait, one increment). A query is admitted only
+	// when the server took it off the socket and dispatched it; queries written
+	// into a connection that was refused were never admitted. So the unit of
+	// account is the connection the server cut (closed while queries on it were
+	// unanswered, or reset before the write completed):
+	//
+	//   cut connections                         ≤ conncap + jobwait
+	//   cut connections that had already served ≤ jobwait
+	//
+	// (a connection that has answered a query was admitted; the cap cannot
+	// explain its loss). Anything beyond is an admitted query whose reply was
+	// lost with its connection.
+	var cutFresh, cutServed, cutQueries, closerConnsUnobserved int64
+	var cutWitness []tcpConnStat
+	for _, c := range conns {
+		cut := (c.ServerClosed && c.CutQueries > 0) || c.WriteFailed
+		if !cut {
+			if c.Closer && !c.ServerClosed {
+				closerConnsUnobserved++
+			}
+			continue
+		}
+		cutQueries += int64(c.Queries - c.Replies)
+		if c.Replies > 0 {
+			cutServed++
 		} else {
-			s.violation("no-reply/tcp-closed-unaccounted", fmt.Sprintf("%d TCP queries were cut off by the server (connection closed, no reply) but it counted only %d refused connections / job waits",
-				tcpRefused, tcpShed), nil, nil, map[string]any{"server_counters_delta": deltas(ctr0, ctr1)})
+			cutFresh++
+		}
+		if len(cutWitness) < 16 {
+			cutWitness = append(cutWitness, c)
+		}
+	}
+	conncap, jobwait := delta("tcp_drop_conncap"), delta("tcp_drop_jobwait")
+	r.Count("tcp_connections", len(conns))
+	r.Count("tcp_connections_cut_unserved", int(cutFresh))
+	r.Count("tcp_connections_cut_after_serving", int(cutServed))
+	if cutFresh+cutServed > 0 {
+		detail := map[string]any{"server_counters_delta": deltas(ctr0, ctr1), "cut_connections": cutWitness,
+			"connections": len(conns), "queries_on_cut_connections": cutQueries}
+		switch {
+		case cutServed > jobwait && !stalled:
+			s.violation("no-reply/tcp-admitted-connection-cut", fmt.Sprintf("%d TCP connection(s) that had already been served were closed by the server with queries unanswered, but it counted only %d job-wait drops (the connection cap cannot refuse an admitted connection)",
+				cutServed, jobwait), nil, nil, detail)
+		case cutFresh+cutServed > conncap+jobwait && !stalled:
+			s.violation("no-reply/tcp-closed-unaccounted", fmt.Sprintf("the server closed %d TCP connections with %d queries on them unanswered but counted only %d refused connections + %d job-wait drops: the surplus connections were admitted and lost",
+				cutFresh+cutServed, cutQueries, conncap, jobwait), nil, nil, detail)
+		case cutServed > jobwait || cutFresh+cutServed > conncap+jobwait:
+			s.inconclusive = true
+		default:
+			r.Count("drops_accounted", int(cutFresh+cutServed))
+			r.Count("tcp_shed_connections_accounted", int(cutFresh+cutServed))
+			r.Count("tcp_queries_never_admitted", int(cutQueries))
+			if conncap+jobwait <= cutFresh+cutServed+closerConnsUnobserved {
+				r.Count("tcp_shed_scripts_exact", 1)
+			}
 		}
 	}
 	if j := r.Counter("junk_sent"); j > 0 {
@@ -399,15 +545,79 @@ func runScript(r *vlib.Run, sp scriptSpec, jm *jitterMon) {
 		p.judge()
 	}
 
+	// ---- what the upstream side actually did to the resolver (evidence that
+	// the fault scripts were exercised, incl. the TC → TCP fallback)
+	upstream := map[string]int{}
+	tcNames := map[string]bool{}
+	upLog := e.t.u.Log.All()
+	for i := range upLog {
+		p := &upLog[i]
+		if p.Transport == "udp" && p.Action == kindNames[kTC] {
+			tcNames[p.Server+"|"+p.QNameL] = true
+		}
+	}
+	for i := range upLog {
+		p := &upLog[i]
+		a := p.Action
+		if a == "" {
+			a = "honest"
+		}
+		upstream[p.Transport+"/"+a]++
+		r.Count("upstream_"+p.Transport+"_packets", 1)
+		if p.Transport == "tcp" && tcNames[p.Server+"|"+p.QNameL] {
+			r.Count("tc_then_tcp_fallbacks", 1)
+		}
+	}
+	for k, v := range upstream {
+		r.Count("upstream/"+k, v)
+	}
+
+	// ---- evidence sample: this script as a real case
+	{
+		var wl []*waveStat
+		for _, w := range waves {
+			wl = append(wl, w)
+		}
+		sort.Slice(wl, func(i, j int) bool { return wl[i].Wave < wl[j].Wave })
+		r.Sample(map[string]any{
+			"script":       sp.Name,
+			"seed":         sp.Seed,
+			"tweaks":       sp.Tweaks,
+			"zone_faults":  sp.Zone,
+			"tld_faults":   sp.TLD,
+			"arrival":      wl, // wave -1 = isolation probes + control client
+			"upstream":     upstream,
+			"server_drops": deltas(ctr0, ctr1),
+			"outcome": map[string]any{
+				"queries_judged":              judged,
+				"udp_unanswered":              udpUnanswered,
+				"udp_drops_counted":           udpServerDrops,
+				"kernel_udp_loss":             kernelLoss,
+				"tcp_connections":             len(conns),
+				"tcp_connections_cut":         cutFresh + cutServed,
+				"tcp_conncap_plus_jobwait":    conncap + jobwait,
+				"tcp_queries_never_admitted":  cutQueries,
+				"quiesced_in_ms":              ms(quiescedIn),
+				"sdns_goroutines_before":      baseSdns,
+				"sdns_goroutines_after":       afterSdns,
+				"limiter_slots_after":         slots,
+				"timer_lateness_max_ms":       ms(jit),
+				"control_round_trip_max_ms":   ms(ctlRTT),
+				"latency_bound_ms":            ms(margin),
+				"violations_in_this_script":   s.nViol,
+			},
+		})
+	}
+
 	// ---- after the load: quiescent, goroutines back, no limiter slot held
 	r.Count("quiescence_checks", 1)
 	r.Max("quiesce_max_ms", quiescedIn.Milliseconds())
 	switch {
-	case quiesced && quiescedIn <= quiesceWant+2*jit:
+	case quiesced && quiescedIn <= quiesceWant+2*late:
 		r.Count("quiescence_reached", 1)
 	case quiesced:
 		r.Count("quiescence_slow", 1)
-		r.Inconclusive(fmt.Sprintf("script %s: server quiescent only after %v (want %v; scheduling lateness %v)", sp.Name, quiescedIn, quiesceWant, jit))
+		r.Inconclusive(fmt.Sprintf("script %s: server quiescent only after %v (want %v; scheduling lateness %v)", sp.Name, quiescedIn, quiesceWant, late))
 	default:
 		if !srvQuiesced {
 			s.violation("server-not-quiescent", fmt.Sprintf("%v after the last reply deadline the server still reports un-returned listener slabs (Server.Quiesced() == false)", quiescePersist),
@@ -453,10 +663,47 @@ func runScript(r *vlib.Run, sp scriptSpec, jm *jitterMon) {
 		r.Inconclusive(fmt.Sprintf("script %s: %d sdns goroutines above the baseline persist (below the leak threshold %d): %v", sp.Name, excess, goroutineLeakAt, goroutineSummary(8)))
 	}
 	if s.inconclusive {
-		r.Inconclusive(fmt.Sprintf("script %s: the machine stalled this process for %v (> %v): late/missing replies are not judged", sp.Name, jit, stallLimit))
+		r.Inconclusive(fmt.Sprintf("script %s: the machine stalled this process for %v (> %v): late/missing replies are not judged", sp.Name, late, stallLimit))
 	}
 	r.Distinct(sp.Name)
-	logf("script %-22s queries=%d judged=%d load=%v quiesce=%v gor %d→%d jitter=%v", sp.Name, len(all), judged, loadWall.Round(time.Millisecond), quiescedIn.Round(time.Millisecond), baseSdns, afterSdns, jit)
+	logf("script %-22s queries=%d judged=%d load=%v quiesce=%v gor %d→%d dlsf=%d jitter=%v ctlrtt=%v udp unanswered/drops/kernel=%d/%d/%d tcp cut/cap+wait=%d/%d", sp.Name, len(all), judged, loadWall.Round(time.Millisecond), quiescedIn.Round(time.Millisecond), baseSdns, afterSdns, servfailLate, jit, ctlRTT, udpUnanswered, udpServerDrops, kernelLoss, cutFresh+cutServed, conncap+jobwait)
+}
+
+// waveStat is the per-wave outcome summary that goes into the evidence samples.
+type waveStat struct {
+	Wave              int            `json:"wave"`
+	Pattern           string         `json:"pattern"`
+	Queries           int            `json:"queries"`
+	UDP               int            `json:"udp"`
+	TCP               int            `json:"tcp"`
+	Closers           int            `json:"closers,omitempty"`
+	Rcodes            map[string]int `json:"replies_by_rcode"`
+	DeadlineServfails int            `json:"servfail_at_query_timeout,omitempty"`
+	UDPUnanswered     int            `json:"udp_unanswered_shed,omitempty"`
+	NeverAdmitted     int            `json:"tcp_never_admitted,omitempty"`
+	Duplicates        int            `json:"duplicates,omitempty"`
+	Lost              int            `json:"lost,omitempty"`
+	LatencyMaxMs      float64        `json:"latency_max_ms"`
+}
+
+// unansweredList names the first few unanswered queries of a transport (the
+// witness of an accounting violation).
+func unansweredList(all []*qrec, tr string, n int) []string {
+	var out []string
+	for _, q := range all {
+		if q.Tr != tr || q.Closer || q.Junk != "" {
+			continue
+		}
+		sent, sendErr, reps, _ := q.snapshot()
+		if sent.IsZero() || sendErr != "" || len(reps) > 0 {
+			continue
+		}
+		out = append(out, fmt.Sprintf("%s %s (%s, wave %d)", q.Name, dns.TypeToString[q.Qtype], q.Pattern, q.Wave))
+		if len(out) >= n {
+			break
+		}
+	}
+	return out
 }
 
 func baseName(n string) string {
@@ -490,6 +737,7 @@ func (s *scriptRun) violation(sig, what string, q *qrec, reps []reply, detail an
 	for _, rp := range reps {
 		rc.Replies = append(rc.Replies, fmt.Sprintf("%x", rp.raw))
 	}
+	s.nViol++
 	s.r.Violation(sig, "script "+s.sp.Name+": "+what, rc)
 }
 
